@@ -272,6 +272,15 @@ func (fx *FnExec) run() {
 		args = append(args, v)
 		fx.inputs = append(fx.inputs, InputTerm{p.Name(), v.T})
 	}
+	for old, news := range eng.renamesOf(fx.fn) {
+		if _, have := fx.params[old]; !have {
+			for _, nn := range news {
+				if v, ok := fx.params[nn]; ok {
+					fx.params[old] = v // a renamed parameter: the contract's name denotes it
+				}
+			}
+		}
+	}
 	for _, fv := range fx.fn.FreeVars {
 		// closures verified on their own: free variables are pointers to cells
 		v := fx.newParam(st, fv.Name(), fv.Type())
@@ -862,6 +871,14 @@ func (fx *FnExec) resolveLocal(st *State, lp *Loop, name string) (Val, bool) {
 	}
 	sc, obj := scope.LookupParent(name, pos)
 	if obj == nil {
+		for _, nn := range fx.eng.renamesOf(lp.fn)[name] {
+			if sc, obj = scope.LookupParent(nn, pos); obj != nil {
+				name = nn
+				break
+			}
+		}
+	}
+	if obj == nil {
 		return Val{}, false
 	}
 	if shadow {
@@ -1148,6 +1165,13 @@ func (fx *FnExec) resolveAt(st *State, ret ssa.Instruction, name string) (Val, b
 		return Val{}, false
 	}
 	_, obj := scope.LookupParent(name, pos)
+	if obj == nil {
+		for _, nn := range fx.eng.renamesOf(fn)[name] {
+			if _, obj = scope.LookupParent(nn, pos); obj != nil {
+				break
+			}
+		}
+	}
 	tv, ok := obj.(*types.Var)
 	if os.Getenv("GOVC_DEBUG") != "" {
 		fmt.Fprintf(os.Stderr, "resolveAtReturn %s: scope=%v obj=%v\n", name, scope != nil, obj)
@@ -1311,6 +1335,36 @@ func (fx *FnExec) havocLoop(st *State, lp *Loop) {
 			}
 			if inner {
 				st.ghost["fg:"+fc.Key+":"+gu.Name] = eng.fresh(st, "ghost_"+gu.Name, fc.ghostSort(gu.Name))
+			}
+		}
+		// ghosts assigned by call-site ghost statements inside the loop
+		if len(fc.CallGhosts) > 0 {
+			ord := map[string]int{}
+			for _, b := range lp.fn.Blocks {
+				for _, x := range b.Instrs {
+					c, ok := x.(*ssa.Call)
+					if !ok {
+						continue
+					}
+					nm := ""
+					if cc := c.Common(); cc.IsInvoke() {
+						nm = cc.Method.Name()
+					} else if f, ok := cc.Value.(*ssa.Function); ok {
+						nm = f.Name()
+					}
+					if nm == "" {
+						continue
+					}
+					ord[nm]++
+					if !lp.blocks[b] {
+						continue
+					}
+					for _, cg := range fc.CallGhosts {
+						if cg.Callee == nm && cg.Ordinal == ord[nm] {
+							st.ghost["fg:"+fc.Key+":"+cg.Name] = eng.fresh(st, "ghost_"+cg.Name, fc.ghostSort(cg.Name))
+						}
+					}
+				}
 			}
 		}
 	}
